@@ -1,0 +1,63 @@
+//go:build verif
+
+package protowire
+
+// Exported names of the wire-format spec functions, for contracts in other packages.
+
+// SpecVlen: length of the shortest varint encoding of v.
+func SpecVlen(v uint64) int { return specVlen(v) }
+
+// SpecVarintAt: r holds the shortest varint encoding of v at position at.
+func SpecVarintAt(r []byte, at int, v uint64) bool { return specVarintAt(r, at, v) }
+
+// SpecVarintLen: varint grammar at the start of b (length or error code).
+func SpecVarintLen(b []byte) int { return specVarintLen(b) }
+
+// SpecVarintVal: value of the n-byte varint at the start of b.
+func SpecVarintVal(b []byte, n int) uint64 { return specVarintVal(b, n) }
+
+// SpecBytesLen: length-delimited payload grammar at the start of b.
+func SpecBytesLen(b []byte) int { return specBytesLen(b) }
+
+// SpecZigZag: zig-zag encoding of x.
+func SpecZigZag(x int64) uint64 {
+	if x >= 0 {
+		return uint64(x) * 2
+	}
+	return uint64(-(x+1))*2 + 1
+}
+
+// Lemma_SpecVarintInverse re-exports lemma_SpecVarintInverse (proved again under its own name).
+//
+//@ props C01 C03
+func Lemma_SpecVarintInverse(s []byte, v uint64) {
+	requires(len(s) >= specVlen(v))
+	requires(specVarintAt(s, 0, v))
+	ensures(specVarintLen(s) == specVlen(v))
+	ensures(specVarintVal(s, specVlen(v)) == v)
+}
+
+// Error codes, for contracts that talk about results of the Consume functions.
+const (
+	SpecErrTruncated = errCodeTruncated
+	SpecErrOverflow  = errCodeOverflow
+)
+
+// Lemma_Fixed32Inverse: four little-endian bytes of v recombine to v.
+//
+//@ props C01 C03
+func Lemma_Fixed32Inverse(s []byte, v uint32) {
+	requires(len(s) >= 4)
+	requires(forall(0, 4, func(k int) bool { return s[k] == byte(v>>(8*uint(k))) }))
+	ensures(uint32(s[0])+uint32(s[1])<<8+uint32(s[2])<<16+uint32(s[3])<<24 == v)
+}
+
+// Lemma_Fixed64Inverse: eight little-endian bytes of v recombine to v.
+//
+//@ props C01 C03
+func Lemma_Fixed64Inverse(s []byte, v uint64) {
+	requires(len(s) >= 8)
+	requires(forall(0, 8, func(k int) bool { return s[k] == byte(v>>(8*uint(k))) }))
+	ensures(uint64(s[0])+uint64(s[1])<<8+uint64(s[2])<<16+uint64(s[3])<<24+
+		uint64(s[4])<<32+uint64(s[5])<<40+uint64(s[6])<<48+uint64(s[7])<<56 == v)
+}
